@@ -711,37 +711,6 @@ def _mg_spec_variant(model_compared):
     return sc
 
 
-def mg_store_step(rng, kind, uni, gen, n_rows):
-    """the store is edited behind the enforcer's back (1..3 edits), then reloaded; w.p. 0.35 a malformed grouping row
-    is among the edits: the reload is refused, the row is deleted again and the reload repeated, so that every step
-    ends with memory = store.  Probes after every reload, accepted or refused."""
-    probe = mg_probe(kind, uni)
-    ops = []
-    pts = [0, 1, 1, 1] + ([2, 2] if kind.g2 else [])
-    for _ in range(rng.randint(1, 3)):
-        pt = rng.choice(pts)
-        x = rng.random()
-        if x < 0.55:
-            ops.append((40, pt, gen.rule(pt), rng.randint(0, n_rows + 6)))
-        elif x < 0.85:
-            ops.append((41, pt, gen.rule(pt)))
-        else:
-            ops.append((42, rng.choice([1, 1, 2]) if kind.g2 else 1))
-    x = rng.random()
-    if x < 0.35:
-        pt = 2 if (kind.g2 and rng.random() < 0.3) else 1
-        full = gen.rule(pt)
-        k = rng.randrange(len(full))
-        bad = full[:k] + full[k + 1:] if len(full) > 2 else full[:1]
-        ops.append((40, pt, bad, rng.randint(0, n_rows + 6)))
-        ops += [(31,)] + probe + [(41, pt, bad), (31,)] + probe
-    elif x < 0.45:
-        ops += [(32, rng.randint(0, n_rows + 3))] + probe + [(31,)] + probe
-    else:
-        ops += [(31,)] + probe
-    return ops
-
-
 def mg_cases(rng, kind, n, store):
     uni = mgmt.Universe(kind)
     for _ in range(n):
@@ -751,7 +720,7 @@ def mg_cases(rng, kind, n, store):
         ops = list(probe) if rng.random() < 0.5 else []
         for _ in range(rng.randint(2, 9)):
             if store and rng.random() < 0.3:
-                ops += mg_store_step(rng, kind, uni, gen, len(rows))
+                ops += mgmt.store_step(rng, kind, gen, len(rows), probe)
             else:
                 ops += [o for o in gen.op() if o[0] < 50 or o[0] in MG_QUERIES]
                 if rng.random() < 0.35:
